@@ -30,14 +30,28 @@
  *   F <node> <obj#> <now>                       like D, but the check command blocks: the check stays IN FLIGHT (the checkable sits in
  *         the scheduler's pending set) while the following lines run, until an R line, the next D/F line or the end of the case
  *   R <node> <now>                              release the check held by F and wait until its helper has finished
+ *   A <node> <obj#> <now>                       object #obj (not the first host, not a feature) is deleted and CREATED AT RUNTIME on <node>: the old
+ *         object is deactivated and unregistered, a new one of the same type and name is registered and activated the way
+ *         ConfigItem::ActivateItems(.., runtimeCreated = true) does for ConfigObjectUtility::CreateObject (REST API, add-comment /
+ *         schedule-downtime actions, cluster sync of such an object): PreActivate(); Activate(true).  The authority run that CreateObject
+ *         issues afterwards for every type but Comment and Downtime is a U line of its own (the generator writes it).
+ *   G <node> <obj#> <now> [<how>]               how = 0 (default): a suppressed Problem notification is pending on object #obj (a Host/Service other than the first
+ *         host) of <node> -- the attributes as a downtime that ended / the cluster sync leave them: hard problem state, state before the
+ *         suppression OK, suppressed_notifications = Problem, no check due soon -- and Checkable::FireSuppressedNotificationsTimer runs;
+ *         afterwards the checkable's attributes are put back.  how = 1: Checkable::AcknowledgeProblem(.., notify = true) (then the
+ *         acknowledgement is cleared again).  how = 2: a passive check result with a HARD state change OK -> CRITICAL is processed
+ *         (Checkable::ProcessCheckResult, as for a result of its own and for one relayed by the other member; max_check_attempts 1 for
+ *         the call; Hosts only, for a Service how = 2 is read as how = 1), then the checkable is put back into hard OK by a second result that is not counted.  In all three a notification
+ *         is to be REQUESTED for the checkable by the member that is in charge of it and by no other.
  *   E <node> <peer> <bits>                      scramble the local state of <node>'s Endpoint object #peer that is not "connected":
  *         syncing, connecting, local/remote log position, capabilities, icinga_version, last message times (from the bits)
  *   T <node> <now>                              Timer::VerifFireDue(now) on <node>   | f=<seq> <obs>...
  *         seq: `a` authority timer ran, `n` notification timer ran, in firing order, `-` neither; one observation
  *         (taken right after that timer's production handler returned) per letter, one observation for `-`
- * Every B/K/U/X/N/D/T line is followed by ` | ` and this node's observation: for every object of the case, in
- * order, `<paused>:<#Pause() calls>:<#Resume() calls>:<#SetPaused calls>:<#command executions>:<#stashed>`, comma
- * separated (command executions: of the recording NotificationCommand for a Notification, of the recording
+ * Every B/K/U/X/N/D/A/G/T line is followed by ` | ` and this node's observation: for every object of the case, in
+ * order, `<paused>:<#Pause() calls>:<#Resume() calls>:<#SetPaused calls>:<#command executions>:<#stashed>:<#requested>`, comma
+ * separated (requested: OnNotificationsRequested signals for this checkable emitted while the suppressed-notifications timer ran;
+ * command executions: of the recording NotificationCommand for a Notification, of the recording
  * CheckCommand for a Host/Service; stashed: length of a Notification's stashed_notifications).  The Endpoint/Zone/ApiListener objects and the node's started NotificationComponent `vnc` /
  * CheckerComponent `vcc` exist in every node process but are not observed (the property does not name them).
  *
@@ -88,6 +102,7 @@ VH_ROB_MEMBER(NotifTimerTag, NotificationComponent, Timer::Ptr, m_NotificationTi
 VH_ROB_MEMBER(CcIdleTag, CheckerComponent, CheckerComponent::CheckableSet, m_IdleCheckables)
 VH_ROB_MEMBER(CcPendTag, CheckerComponent, CheckerComponent::CheckableSet, m_PendingCheckables)
 VH_ROB_MEMBER(CcMtxTag, CheckerComponent, std::mutex, m_Mutex)
+VH_ROB_STATIC(FsnTimerTag, void (*type)(const Timer * const&), Checkable, FireSuppressedNotificationsTimer)
 }
 
 /* ------------------------------------------------------------------------------------------- */
@@ -191,10 +206,14 @@ static void GenCase(Rng& rng, std::vector<std::string>& out, bool thorough, long
 	std::string shared = GenName(rng);
 	/* object numbers as the harness sees them: derived objects first */
 	int nDerived = 0;
-	std::vector<int> checkables;
+	std::vector<int> checkables, creatable, laterCheckables;
+	std::vector<char> typeOf;
 	for (int i = 0; i < nObj; i++) {
 		char t = i == 0 ? 'h' : types[rng.below(11)];
 		if (t == 'h' || t == 's') checkables.push_back(nDerived + i);
+		if ((t == 'h' || t == 's') && i > 0) laterCheckables.push_back(nDerived + i);
+		if (i > 0 && t != 'k' && t != 'f') creatable.push_back(nDerived + i);
+		typeOf.push_back(t);
 		int ha = (i > 0 && rng.below(8) == 0) ? 1 : 0;
 		int active = (i > 0 && rng.below(10) == 0) ? 0 : 1;
 		std::string n;
@@ -245,6 +264,45 @@ static void GenCase(Rng& rng, std::vector<std::string>& out, bool thorough, long
 		else snprintf(buf, sizeof buf, "D %c %d %ld", "AB"[k], checkables[rng.below(checkables.size())], now);
 		out.push_back(buf);
 	};
+	/* an object is created at runtime -- on one member, or on both as the cluster sync does -- followed by what
+	 * ConfigObjectUtility::CreateObject does next: an authority run for every type but Comment and Downtime (those wait for the timer) */
+	auto create = [&](int k) {
+		if (creatable.empty()) { update(k); return; }
+		int obj = creatable[rng.below(creatable.size())];
+		bool both = rng.below(3) != 0;
+		bool direct = typeOf[obj] != 'c' && typeOf[obj] != 'd';
+		for (int j = 0; j < 2; j++) {
+			int node = j == 0 ? k : 1 - k;
+			if (j == 1 && !both) break;
+			snprintf(buf, sizeof buf, "A %c %d %ld", "AB"[node], obj, now); out.push_back(buf);
+			if (direct) { snprintf(buf, sizeof buf, "U %c %ld", "AB"[node], now); out.push_back(buf); }
+		}
+		if (!direct || rng.below(3) == 0) {
+			/* the authority timer (10 s) comes round on both */
+			now += 10 + (long)rng.below(3);
+			for (int j = 0; j < 2; j++) {
+				if (rng.below(4) == 0) snprintf(buf, sizeof buf, "U %c %ld", "AB"[j], now);
+				else snprintf(buf, sizeof buf, "T %c %ld", "AB"[j], now);
+				out.push_back(buf);
+			}
+		}
+		if (typeOf[obj] == 'h' || typeOf[obj] == 's')
+			for (int j = 0; j < 2; j++) { snprintf(buf, sizeof buf, "D %c %d %ld", "AB"[j], obj, now); out.push_back(buf); }
+	};
+	/* the suppressed-notifications timer finds a pending notification: on both members (the attribute is synced), or on one */
+	auto fire = [&](int k) {
+		if (laterCheckables.empty()) { work(k, 0); return; }
+		int obj = laterCheckables[rng.below(laterCheckables.size())];
+		bool both = rng.below(3) != 0;
+		int how = (int)rng.below(typeOf[obj] == 'h' ? 3 : 2);
+		for (int j = 0; j < 2; j++) {
+			int node = j == 0 ? k : 1 - k;
+			if (j == 1 && !both) break;
+			if (how) snprintf(buf, sizeof buf, "G %c %d %ld %d", "AB"[node], obj, now, how);
+			else snprintf(buf, sizeof buf, "G %c %d %ld", "AB"[node], obj, now);
+			out.push_back(buf);
+		}
+	};
 	int nEp = layout == 'N' ? 0 : layout == 'S' ? 2 : 2 + nExtra;
 	/* local endpoint state other than "connected" (syncing, connecting, log positions, ...): set independently on each node */
 	auto scramble = [&](int k, int peer) {
@@ -281,7 +339,9 @@ static void GenCase(Rng& rng, std::vector<std::string>& out, bool thorough, long
 		now += dt < 5 ? 0 : dt < 8 ? (long)rng.below(8) : dt == 8 ? (long)rng.below(40) : 25 + (long)rng.below(10);
 		int node = (int)rng.below(2);
 		if (layout == 'N' || layout == 'S') {
-			if (r < 35) update(node);
+			if (r < 30) update(node);
+			else if (r < 36) create(node);
+			else if (r < 42) fire(node);
 			else if (r < 70) work(node, (int)rng.below(6));
 			else if (r < 75) inflight(node);
 			else if (r < 78 && nEp) scramble(node, (int)rng.below(nEp));
@@ -313,8 +373,12 @@ static void GenCase(Rng& rng, std::vector<std::string>& out, bool thorough, long
 			link(node, 1 - node, rng.below(2) != 0, (int)rng.below(3));
 		} else if (r < 35 && nExtra) {
 			link(node, 2 + (int)rng.below(nExtra), rng.below(2) != 0, rng.below(3) ? 0 : (int)rng.below(3));
-		} else if (r < 52) {
+		} else if (r < 50) {
 			update(node);
+		} else if (r < 56) {
+			create(node);
+		} else if (r < 62) {
+			fire(node);
 		} else if (r < 80) {
 			work(node, (int)rng.below(6));
 		} else if (r < 85) {
@@ -339,7 +403,7 @@ static std::vector<std::string> Generate(uint64_t seed, bool thorough)
 	std::vector<std::string> out;
 	Rng rng(seed * 0x100000001b3ULL + 17);
 	long clock = 1000;
-	int n = thorough ? 24000 : 3400;   /* cases; the scenarios got longer with the connection-set and state-file events */
+	int n = thorough ? 16000 : 3000;   /* cases; the scenarios got longer with the connection-set and state-file events */
 	/* a block of pure hash ties, long names included */
 	out.push_back("C N 0 61 62 7a 79");
 	out.push_back("O h 0 1 68");
@@ -367,7 +431,8 @@ struct Obj {
 	ConfigObject::Ptr ptr;
 };
 
-struct Counters { long pause = 0, resume = 0, setPaused = 0, execs = 0; };
+struct Counters { long pause = 0, resume = 0, setPaused = 0, execs = 0, reqs = 0; };
+static bool l_InFire = false;                /* Checkable::FireSuppressedNotificationsTimer is running (on the harness thread) */
 static std::mutex l_CountersMutex;           /* signals and commands also run on other threads (X, thread pool) */
 static NotificationComponent::Ptr l_NC;
 static CheckerComponent::Ptr l_CC;
@@ -661,7 +726,7 @@ static std::string Observe()
 		long stash = 0;
 		if (o.type == 'n')
 			stash = (long)static_pointer_cast<Notification>(o.ptr)->GetStashedNotifications()->GetLength();
-		snprintf(buf, sizeof buf, "%s%d:%ld:%ld:%ld:%ld:%ld", i ? "," : "", o.ptr->IsPaused() ? 1 : 0, c.pause, c.resume, c.setPaused, c.execs, stash);
+		snprintf(buf, sizeof buf, "%s%d:%ld:%ld:%ld:%ld:%ld:%ld", i ? "," : "", o.ptr->IsPaused() ? 1 : 0, c.pause, c.resume, c.setPaused, c.execs, stash, c.reqs);
 		s += buf;
 	}
 	if (l_Objs.empty()) s = "-";
@@ -778,6 +843,100 @@ static void DueCheck(size_t idx, double now, bool hold)
 		std::this_thread::sleep_for(std::chrono::microseconds(300));
 		c->SetNextCheck(4e9);
 	}
+}
+
+/* Object #idx is deleted and created anew while the node is running (see the A line above). */
+static void RuntimeCreate(size_t idx, double now)
+{
+	ReleaseHeldCheck();
+	Sync();
+	if (!(idx > 0 && idx < l_Objs.size() && l_Objs[idx].ptr))
+		return;
+	Obj& o = l_Objs[idx];
+	if (o.type != 'h' && o.type != 's' && o.type != 'n' && o.type != 'd' && o.type != 'c')
+		return;
+	SetNow(now);
+	std::string baseHost;
+	for (auto& x : l_Objs) if (x.type == 'h' && x.active) { baseHost = x.name; break; }
+	ConfigObject::Ptr old = o.ptr;
+	if (o.active)
+		old->Deactivate(true);
+	else if (o.type == 'n') {
+		/* never started, so Stop() does not take it off its checkable's list */
+		Notification::Ptr n = static_pointer_cast<Notification>(old);
+		if (n->GetCheckable()) n->GetCheckable()->UnregisterNotification(n);
+	}
+	Sync();
+	old->Unregister();
+	{ std::unique_lock<std::mutex> lock(l_CountersMutex); l_Counters.erase(old.get()); }
+	o.ptr = nullptr;
+	/* keep the old object alive until the new one exists: the counters are keyed by address */
+	o.ptr = Create(o, baseHost);
+	Sync();
+	if (o.active) {
+		o.ptr->PreActivate();
+		o.ptr->Activate(true);
+	}
+	Sync();
+	old = nullptr;
+}
+
+/* A suppressed Problem notification is pending on object #idx and the suppressed-notifications timer runs (see the G line above). */
+static void FirePending(size_t idx, double now, int how)
+{
+	ReleaseHeldCheck();
+	Sync();
+	if (!(idx > 0 && idx < l_Objs.size() && l_Objs[idx].ptr && (l_Objs[idx].type == 'h' || l_Objs[idx].type == 's')))
+		return;
+	SetNow(now);
+	Checkable::Ptr c = static_pointer_cast<Checkable>(l_Objs[idx].ptr);
+	/* a state change of a Service reschedules its host (checkable-check.cpp:428-440), which is another object's check: hosts only */
+	if (how == 2 && l_Objs[idx].type != 'h')
+		how = 1;
+	if (how == 1) {
+		l_InFire = true;
+		c->AcknowledgeProblem("v", "v", AcknowledgementNormal, true);
+		l_InFire = false;
+		Sync();
+		c->ClearAcknowledgement("v");
+		return;
+	}
+	if (how == 2) {
+		int oldMax = c->GetMaxCheckAttempts();
+		c->SetMaxCheckAttempts(1);
+		c->SetStateRaw(ServiceOK);
+		c->SetStateType(StateTypeHard);
+		c->SetCheckAttempt(1);
+		Sync();
+		l_InFire = true;
+		c->ProcessCheckResult(MakeCr(ServiceCritical, now, now, false));
+		l_InFire = false;
+		Sync();
+		c->ProcessCheckResult(MakeCr(ServiceOK, now, now, false));
+		Sync();
+		c->SetMaxCheckAttempts(oldMax);
+		return;
+	}
+	CheckResult::Ptr oldCr = c->GetLastCheckResult();
+	ServiceState oldState = c->GetStateRaw(), oldBefore = c->GetStateBeforeSuppression();
+	StateType oldType = c->GetStateType();
+	int oldSupp = c->GetSuppressedNotifications();
+	/* the check result is younger than every state change of the host / the parents ("no parent recovered recently") */
+	c->SetLastCheckResult(MakeCr(ServiceCritical, now + 1, now + 1));
+	c->SetStateRaw(ServiceCritical);
+	c->SetStateType(StateTypeHard);
+	c->SetStateBeforeSuppression(ServiceOK);
+	c->SetSuppressedNotifications(NotificationProblem);
+	Sync();
+	l_InFire = true;
+	get(FsnTimerTag())(nullptr);
+	l_InFire = false;
+	Sync();
+	c->SetSuppressedNotifications(oldSupp);
+	c->SetStateBeforeSuppression(oldBefore);
+	c->SetStateType(oldType);
+	c->SetStateRaw(oldState);
+	c->SetLastCheckResult(oldCr);
 }
 
 static void RunLine(const std::string& line)
@@ -904,6 +1063,12 @@ static void RunLine(const std::string& line)
 		} else if (op == "D" || op == "F") {
 			if (w.size() != 4) Die("bad D/F line");
 			if (mine) DueCheck((size_t)atol(w[2].c_str()), (double)atol(w[3].c_str()), op == "F");
+		} else if (op == "A" || op == "G") {
+			if (w.size() != 4 && !(op == "G" && w.size() == 5)) Die("bad A/G line");
+			if (mine) {
+				if (op == "A") RuntimeCreate((size_t)atol(w[2].c_str()), (double)atol(w[3].c_str()));
+				else FirePending((size_t)atol(w[2].c_str()), (double)atol(w[3].c_str()), w.size() == 5 ? atoi(w[4].c_str()) : 0);
+			}
 		} else if (op == "R") {
 			if (mine) {
 				SetNow((double)atol(w[2].c_str()));
@@ -1016,6 +1181,12 @@ static int NodeMain(int argc, char **argv, const std::string& mode, char node)
 	});
 	ConfigObject::OnResumeCalledChanged.connect([](const ConfigObject::Ptr& o, const Value&) {
 		if (GetF(o, "resume_called").ToBool()) { std::unique_lock<std::mutex> lock(l_CountersMutex); l_Counters[o.get()].resume++; }
+	});
+
+	/* requests that come out of the suppressed-notifications timer (emitted synchronously on the harness thread) */
+	Checkable::OnNotificationsRequested.connect([](const Checkable::Ptr& checkable, NotificationType, const CheckResult::Ptr&,
+		const String&, const String&, const MessageOrigin::Ptr&) {
+		if (l_InFire) { std::unique_lock<std::mutex> lock(l_CountersMutex); l_Counters[checkable.get()].reqs++; }
 	});
 
 	/* notification helpers run on the thread pool: queued (synchronous signal at the end of BeginExecuteNotification)
